@@ -85,8 +85,20 @@ fn opts(f: FilterFormat, t: RuleTypes, perm: u8) -> ParseOptions {
 }
 
 /// canonical outcome of `parse_filter` for one line
+/// Lines the parser model is compared on: ASCII lines, and lines whose only non-ASCII text is the value of a
+/// `removeparam=` option (host names and `domain=` values need IDNA, which is external to the model)
+pub fn model_comparable(line: &str) -> bool {
+    if line.is_ascii() {
+        return true;
+    }
+    match line.rfind('$') {
+        Some(d) if line[..d].is_ascii() => line[d + 1..].split(',').all(|o| o.is_ascii() || (o.starts_with("removeparam=") && o["removeparam=".len()..].chars().all(|c| c != '|'))),
+        _ => false,
+    }
+}
+
 pub fn show_pline(line: &str, f: FilterFormat, t: RuleTypes) -> Result<String, String> {
-    let ascii = line.is_ascii();
+    let ascii = model_comparable(line);
     let l2 = line.to_string();
     let res = guarded(move || parse_filter(&l2, false, opts(f, t, 0)))?;
     Ok(match res {
@@ -104,7 +116,7 @@ pub fn show_pline(line: &str, f: FilterFormat, t: RuleTypes) -> Result<String, S
 /// lists is then reported by the check of whatever property the run belongs to, not only by C11.
 pub fn emit_plines(out: &mut Out, lines: &[String]) {
     for line in lines {
-        if !line.is_ascii() || line.contains('\n') || out.seen_lines.contains(line) {
+        if !model_comparable(line) || line.contains('\n') || out.seen_lines.contains(line) {
             continue;
         }
         out.seen_lines.insert(line.clone());
